@@ -10,7 +10,7 @@ MANIFEST = dict(
 
 MODULES = ["Gozod.Proofs.C18"]
 THEOREMS = ["Gozod.C18." + t for t in [
-    "finalize_priority", "finalize_check_first", "finalize_default_last", "site_winner",
+    "finalize_priority", "finalize_check_first", "finalize_default_last", "finalize_silent_parse", "finalize_silent_custom", "site_winner",
     "c18_wired_partial", "c18_all_sites_partial", "c18_wired_full_false", "gap_breaks_priority",
     "c18_base_nonempty", "c18_locales", "c18_locales_cover",
 ]]
@@ -41,10 +41,16 @@ def read_wiring(path):
         site, kind, raiser, wrapper, appl, mask, win = line.split("\t")
         d = sites.setdefault(site, dict(leaf=site.split("@")[0], wrapper=wrapper, kind=kind, raiser=raiser,
                                         appl="" if appl == "-" else appl, cells={}))
+        if mask.startswith("!"):      # cell {c,x} configured as functions with the check's function answering ""
+            d.setdefault("silentc", {})[mask[1:].replace("c", "")] = win
+            continue
         d["cells"]["" if mask == "-" else mask] = win
     for d in sites.values():
         # a source is passed by the site iff, configured alone, its sentinel wins
         d["passes"] = "".join(ch for ch in d["appl"] if d["cells"].get(ch) == ch)
+        # what reaches FinalizeIssue when the check has a message function that declines the issue
+        sc = d.get("silentc", {})
+        d["passes2"] = "".join(ch for ch in d["appl"] if ch != "c" and sc.get(ch) == ch) if sc else d["passes"].replace("c", "")
         d["base"] = d["cells"].get("", "n")
         d["missing"] = "".join(ch for ch in d["appl"] if ch not in d["passes"])
     return sites
@@ -52,13 +58,14 @@ def read_wiring(path):
 def gen_wiring(sites):
     out = ["-- GENERATED on every run by vlib/c18.py from the behaviour of the library under sentinel error maps",
            "-- (harness/cmd/c18).  Do not edit.  One entry per issue site: leaf, wrapper, kind, applicable sources,",
-           "-- sources that reach FinalizeIssue (a source passes iff, configured alone, its sentinel is the message), base.",
+           "-- sources that reach FinalizeIssue (a source passes iff, configured alone, its sentinel is the message), base,",
+           "-- and the sources that reach it when the check carries a message function that answers \"\" (passesSilentCheck).",
            "import Gozod.Model.Msg", "namespace Gozod.Gen", "open Gozod.Msg", "", "def sites : List Site := ["]
     rows = []
     for d in sites.values():
         if ">" in d["wrapper"]: continue   # two-level sites (thorough tier) are predicted from the inner wrapper's entry
-        rows.append("  ⟨%s, %s, %s, %s, %s, %s⟩" % (lean_str(d["leaf"]), lean_str(d["wrapper"]), lean_str(d["kind"]),
-                                                   srcset(d["appl"]), srcset(d["passes"]), lean_str(d["base"])))
+        rows.append("  ⟨%s, %s, %s, %s, %s, %s, %s⟩" % (lean_str(d["leaf"]), lean_str(d["wrapper"]), lean_str(d["kind"]),
+                                                       srcset(d["appl"]), srcset(d["passes"]), lean_str(d["base"]), srcset(d["passes2"])))
     out.append(",\n".join(rows))
     out += ["]", "", "end Gozod.Gen", ""]
     return "\n".join(out)
@@ -94,6 +101,9 @@ def key(op, impl, M, S):
     d = SITES.get(site, {})
     if ">" in site:   # outer>inner: the model's entry is the inner wrapper's
         d = SITES.get(site.split("@")[0] + "@" + site.split(">")[-1], d)
+    if t[1] == "silent" and impl != M:
+        # message functions / a source answering "": the implementation leaves the priority chain the model proves
+        return "silent:%s:configured-%s:silent-%s:model-differs" % (d.get("leaf", site), t[6], t[7])
     if impl in ("panic", "n"):
         return "wire:%s:%s" % (site, {"panic": "panic", "n": "issue-not-reported"}[impl])
     k = "wire:%s:missing-%s" % (d.get("leaf", site), d.get("missing", "?") or "none")
